@@ -125,6 +125,12 @@ func C07(c *Ctx) {
 		nEff++
 		r.Check(shouldRemember(call.(ssa.Instruction)), "C07.on-request", rn, "AddRememberToken", posf(c, call), "only under GetShouldRemember()==true of the request's values", "a remember token is stored without the request having asked to be remembered")
 		c.tokenHalves(rn, call, nil, genName)
+		okPid, names := c.ctxUserOnly(Arg(call, 1))
+		r.Check(okPid, "C07.one-user", rn, "AddRememberToken.pid", posf(c, call), "the token is stored for the user the login handler put into the request", "the PID the token is stored for is not (only) the user the login handler just authenticated (origins: "+names+"): at After(EventAuth) the session still names whoever used this browser before, and the cookie would re-authenticate that account")
+		for _, g := range CallsTo(raa, genName) {
+			okG, namesG := c.ctxUserOnly(Arg(g, 0))
+			r.Check(okG, "C07.one-user", rn, "GenerateToken.pid", posf(c, g), "the cookie names the user the login handler put into the request", "the PID encoded in the cookie is not (only) the just-authenticated user (origins: "+namesG+")")
+		}
 	}
 	for _, op := range c.StateOps(raa) {
 		if op.Op == "put" && op.Store == "cookie" {
